@@ -13,7 +13,8 @@ pub fn geom_mean(samples: &[f64]) -> f64 {
     if n == 0 {
         return f64::NAN;
     }
-    samples.iter().product::<f64>().powf(1_f64 / n as f64)
+    // exp(mean(ln x)): the plain product overflows long before the mean does
+    (samples.iter().map(|x| x.ln()).sum::<f64>() / n as f64).exp()
 }
 
 pub fn std_dev(samples: &[f64], correction: StdDevType) -> f64 {
